@@ -111,6 +111,11 @@ def stops_st(draw, palette):
     out = []
     for o in offs:
         out.append([o, draw(color_str(palette, allow_current=False)), draw(opacity_st)])
+    fade = draw(st.sampled_from(["no"] * 5 + ["in", "out"]))
+    if fade == "in":
+        out[0][2] = 0.0  # a gradient that fades in from nothing (halo, glow): its first colour is fully transparent
+    elif fade == "out":
+        out[-1][2] = 0.0
     return out
 
 
